@@ -98,7 +98,8 @@ fn run_ops(ops: &[Value], id: u64, out: &mut Out) {
     let ok = r.is_ok();
     out.line(&json!({"ev":"tree","case":id,"dom": if ok { dump(&ap.sink.inner.document) } else { json!({"k":"none"}) },
         "quirks":"no","parents_ok": if ok { parents_consistent(&ap.sink.inner.document) } else { true },
-        "panic": match r { Err(m) => json!([cps(&m)]), Ok(_) => json!([]) }, "neof": 1}));
+        "panic": match r { Err(m) => json!([cps(&m)]), Ok(_) => json!([]) }, "neof": 1,
+        "ser": if ok { crate::parse::ser_events(&ap.sink.inner.document) } else { json!([]) }}));
 }
 
 /// bookkeeping mirror used only to *generate* contract-abiding operations
